@@ -34,7 +34,7 @@ MIN = {"quick": {"evaluations": 60, "nontrivial": 40, "outcomes": 2},
        "thorough": {"evaluations": 90, "nontrivial": 60, "outcomes": 2}}
 
 CHAIN_MODES = ("outer-first", "inner-first", "inner-first-paused", "all-paused-unpause-front-to-back",
-               "all-paused-unpause-back-to-front")
+               "all-paused-unpause-back-to-front", "outer-first-late-observer", "outer-first-late-observer-on-all")
 LINKS = ("callback", "errback")
 RESULTS = ("ok", "fail")
 FLAVOURS = ("inlineCallbacks", "coroutine")
@@ -62,6 +62,7 @@ class Probe:
         self.max = 0
         self.in_trigger = False
         self.trigger_count = 0
+        self.observed = 0
 
     def hit(self):
         d = depth() - self.base
@@ -73,6 +74,14 @@ class Probe:
 
     def cb(self, r):
         self.hit()
+        return r
+
+    def observe(self, r):
+        """Pass-through callback that measures the depth without counting as a link."""
+        d = depth() - self.base
+        self.observed += 1
+        if d > self.max:
+            self.max = d
         return r
 
 
@@ -119,6 +128,22 @@ def run_chain(mode, link, result, n):
     if mode == "outer-first":
         for i in range(n - 1):
             fire_link(i)
+        p.in_trigger = True
+        fire_last()
+    elif mode in ("outer-first-late-observer", "outer-first-late-observer-on-all"):
+        # a pass-through callback added to a link *after* the previous Deferred started waiting on it,
+        # so the link still has callbacks of its own behind the point where the waiter is resumed
+        # (round-9 miss C02-k); "-on-all" adds it after every link fired, as a separate pass
+        if mode == "outer-first-late-observer":
+            for i in range(n - 1):
+                fire_link(i)
+                ds[i + 1].addBoth(p.observe)
+        else:
+            for i in range(n - 1):
+                fire_link(i)
+            for i in range(n - 1, 0, -1):
+                ds[i].addBoth(p.observe)
+                ds[i].addBoth(p.observe)
         p.in_trigger = True
         fire_last()
     elif mode == "inner-first":
@@ -275,6 +300,11 @@ def run_shape(shape, n):
         bad.append(("%s:wrong-final-result:%s" % (comp, short), "length %d: got %r, reference %r" % (n, got, exp)))
     if p.count != n and not bad:
         bad.append(("%s:probe-count:%s" % (comp, short), "length %d: %d links/iterations observed" % (n, p.count)))
+    if shape[0] == "chain" and "late-observer" in shape[1] and not bad:
+        want = (n - 1) * (2 if shape[1].endswith("-on-all") else 1)
+        if p.observed != want:
+            bad.append(("%s:late-callback-count:%s" % (comp, short),
+                        "length %d: %d of %d late callbacks ran" % (n, p.observed, want)))
     return bad, got, p
 
 
